@@ -1,6 +1,7 @@
 package main
 
 import (
+	"errors"
 	"fmt"
 	"strings"
 	"sync"
@@ -8,6 +9,7 @@ import (
 
 	casbin "github.com/casbin/casbin/v2"
 	"github.com/casbin/casbin/v2/model"
+	"github.com/casbin/casbin/v2/persist"
 	"github.com/casbin/casbin/v2/persist/cache"
 	stringadapter "github.com/casbin/casbin/v2/persist/string-adapter"
 )
@@ -842,6 +844,57 @@ func (g c14Gen) random(id string, synced bool, maxLen int, timed bool) *c14Case 
 }
 
 // the witnesses of the repaired findings, as ordinary cases of the main stream
+// a watcher whose notification fails: the management call then returns (true, error) although
+// the rule was removed (added)
+type c14BadWatcher struct{}
+
+func (c14BadWatcher) SetUpdateCallback(func(string)) error { return nil }
+func (c14BadWatcher) Update() error                        { return errors.New("watcher down") }
+func (c14BadWatcher) Close()                               {}
+
+// c14FailingWatcher: removal (and, for the synced variant, addition) of the identical rule drops
+// the cached decision also when the call reports an error AFTER the rule has changed (the
+// watcher could not be notified): the wrapper must answer like the embedded enforcer.
+func c14FailingWatcher(c *Ctx) {
+	for _, synced := range []bool{false, true} {
+		for _, how := range []string{"remove", "removes", "add", "adds"} {
+			if !synced && (how == "add" || how == "adds") {
+				continue // the plain wrapper does not intercept additions (F31 territory)
+			}
+			w, under, _ := c14NewModel(false, synced)
+			sw, ok := w.(interface{ SetWatcher(persist.Watcher) error })
+			if !ok {
+				continue
+			}
+			_ = sw.SetWatcher(c14BadWatcher{})
+			rule := []string{"alice", "data1", "read"}
+			if how == "add" || how == "adds" {
+				rule = []string{"zoe", "data9", "read"}
+			}
+			req := toIface(rule)
+			first, _ := w.Enforce(req...)
+			var rok bool
+			var rerr error
+			switch how {
+			case "remove":
+				rok, rerr = w.RemovePolicy(req...)
+			case "removes":
+				rok, rerr = w.RemovePolicies([][]string{rule})
+			case "add":
+				rok, rerr = w.AddPolicy(req...)
+			case "adds":
+				rok, rerr = w.AddPolicies([][]string{rule})
+			}
+			after, _ := w.Enforce(req...)
+			ref, _ := under(req...)
+			if after != ref {
+				c.Direct(fmt.Sprintf("c14.failing-watcher.%v.%s", synced, how), fmt.Sprintf("watcher whose Update fails: Enforce%v=%v, then %s of that rule reported (%v, %v), then the wrapper answers %v while the embedded enforcer answers %v", rule, first, how, rok, rerr, after, ref), how)
+			}
+			c.Count("failing-watcher")
+		}
+	}
+}
+
 // c14LifetimeUnderPolling: a lifetime runs from the moment a decision was STORED.  A cached
 // (now stale) decision that is asked for again and again at intervals much shorter than the
 // lifetime must still give way to the fresh decision once the lifetime is over.  Real time,
@@ -1126,6 +1179,7 @@ func init() {
 			"or ANY request while no mutator was called since the cache was last empty (C14_transparent_quiet). "+
 			"Histories in which two different tuples have one cache key (F21 and its variants for the context text) are kept out. Non-trivial = some cacheable request is enforced at least twice (a potential cache hit); distinct by case id.", exLen, nRandom, maxLen, nTimed, nCx)
 		c14LifetimeUnderPolling(c)
+		c14FailingWatcher(c)
 		var cases []*c14Case
 		cases = append(cases, c14Witnesses()...)
 		cases = append(cases, c14Exhaustive(exLen)...)
